@@ -1,16 +1,16 @@
 """Per-property claims (source of MANIFEST.json; tools/gen_manifest.py renders it)."""
 HOOK_COMMITS = []
 ENGINES = [
-    {"name": "lean-model", "path": "lean/", "serves_properties": ["C01", "C02", "C03", "C04", "C05", "C06", "C07", "C08", "C09", "C13", "C18", "C11", "C12", "C16", "C17", "C20"],
+    {"name": "lean-model", "path": "lean/", "serves_properties": ["C01", "C02", "C03", "C04", "C05", "C06", "C07", "C08", "C09", "C10", "C13", "C18", "C11", "C12", "C16", "C17", "C20"],
      "kind_free_text": "Lean 4 library Dbus (Spec, Model, Proofs, Props) + compiled line-protocol driver dbus-model"},
-    {"name": "tabulator", "path": "gen/", "serves_properties": ["C01", "C02", "C03", "C04", "C05", "C06", "C07", "C08", "C09", "C13", "C18", "C11", "C12", "C16", "C17", "C20"],
+    {"name": "tabulator", "path": "gen/", "serves_properties": ["C01", "C02", "C03", "C04", "C05", "C06", "C07", "C08", "C09", "C10", "C13", "C18", "C11", "C12", "C16", "C17", "C20"],
      "kind_free_text": "C translation units that #include repo sources and print finite tables; rendered to lean/Dbus/Generated"},
-    {"name": "h-lib", "path": "harness/lib/", "serves_properties": ["C01", "C02", "C03", "C04", "C05", "C06", "C07", "C08", "C09", "C13", "C18", "C11", "C12", "C16", "C17", "C20"],
+    {"name": "h-lib", "path": "harness/lib/", "serves_properties": ["C01", "C02", "C03", "C04", "C05", "C06", "C07", "C08", "C09", "C10", "C13", "C18", "C11", "C12", "C16", "C17", "C20"],
      "kind_free_text": "in-process C harnesses linked against the ASan/UBSan build of the working tree"},
 ]
 PENDING = "not implemented yet in this round (planned, see DESIGN.md §4/§7); no check is claimed"
 NOT_APPLICABLE = {p: PENDING for p in
-                  ["C10", "C14", "C15",
+                  ["C14", "C15",
                    "C19"]}
 BUS_TIE = ("The bus model (lean/Dbus/Model/Bus: dispatch, driver methods, registry, match delivery, policy gate, pending replies, "
            "disconnect cleanup; method table regenerated from bus/driver.c) is tied to the real dbus-daemon (ASan/UBSan build of the working "
@@ -18,6 +18,28 @@ BUS_TIE = ("The bus model (lean/Dbus/Model/Bus: dispatch, driver methods, regist
            "connection closed by the bus must equal what the model's step emits; disagreements are classified by a trace oracle "
            "written independently of the model. ")
 CHECKS = {
+    "C10": {
+        "text": "Proved in Lean for the layer between the sockets and the bus core (lean/Dbus/Model/Bus/Raw.lean: per-connection loaders of C11 feeding "
+                "Dbus.Model.Bus.step): whatever bytes clients write, in whatever chunks and interleaving, the core goes through an ordinary event history "
+                "(hostile_history_is_event_history), so every theorem proved for all event histories holds under hostile input; only messages that passed the "
+                "loader's validation (C01) reach it and everything else becomes at most one contentless `invalid` event per stream "
+                "(only_validated_messages_reach_the_core, write_contributes_framed_messages_only, corrupt_stream_is_silenced); that event costs only its sender "
+                "the connection, every other connection keeps its entry and name, and all the bus sends on the occasion is of its own making "
+                "(invalid_input_drops_only_its_sender); unique names, owner queues and all limits stay well-formed after any such history "
+                "(bookkeeping_survives_hostile_input); a connected client's Peer.Ping is answered at once in every state (bystander_ping_is_answered); and for the "
+                "accounting of connections that have not completed their handshake (lean/Dbus/Model/Bus/Accept.lean, model of BusConnections.incomplete and "
+                "bus_context_check_all_watches) at most `max` are incomplete, the bus listens exactly while there is room and nobody is left waiting while there "
+                "is room, for every history of clients arriving, completing and going away (incomplete_connections_bounded_and_fair). " + BUS_TIE +
+                "For C10 the histories interleave ordinary traffic with hostile clients (a fixed corpus of classics run first: every header field of every "
+                "kind of message removed in turn, length words at limit values, truncations; then generated: mutations, bit flips, garbage, valid+invalid+valid "
+                "in one write, floods of up to 600 messages, messages split across writes, abrupt closes, unauthenticated sockets misbehaving in 16 ways); every "
+                "connection's Peer.Ping must be answered after every operation (10 s watchdog), the daemon (ASan/UBSan, assertions on) must stay alive, and a "
+                "second differential run compares which unauthenticated clients are served or left waiting around max_incomplete_connections with the model, "
+                "plus an auth_timeout expiry scenario.",
+        "note": "Partial by nature: crashes, memory-safety, assertion failures, spinning and latency are observations of the sanitizer-built daemon under the "
+                "generated histories, not theorems; 'bounded time' is a watchdog. F19 (pre-authentication assertion abort, found by C08's check) is a C10 "
+                "violation as well and is repaired in /repo.",
+    },
     "C08": {
         "text": "Proved in Lean over a model of the server side of dbus/dbus-auth.c (all three mechanisms, the per-state command handlers, line splitting, hex "
                 "decoding, the failure counter, _dbus_auth_do_work's buffer limits) and of the identity gate in _dbus_transport_try_to_authenticate, for every "
